@@ -315,3 +315,16 @@ EXTRA5 = {
 }
 for _k, _v in EXTRA5.items():
     EXTRA[_k] = EXTRA.get(_k, "") + _v
+
+# round g
+EXTRA6 = {
+    "C01": " Round g: the caller of a popped cyclic SLG table inherits its cyclic minimums (Positive unchanged / Negative as {clock, min}).",
+    "C03": " Round g: cyclic minimums propagation (shared with C01).",
+    "C14": " Round g: a failed relate is rolled back (C15's pairing evaluated under C14); the int/float kind gate of relate_var_ty is decided by symbolic evaluation (12 cells).",
+    "C16": " Round g: all three Canonicalizer callbacks shift the canonical variable in by outer_binder; binder universes are mapped back unadjusted.",
+    "C22": " Round g: no item writer has an explicit early return (inventory, positive control).",
+    "C28": " Round g: canonical variables are shifted in by outer_binder (shared with C16).",
+    "C20": " F8 partly repaired in /repo (IsFullyVisible for built-in types and tuples); IsUpstream for built-in types stays a known finding.",
+}
+for _k, _v in EXTRA6.items():
+    EXTRA[_k] = EXTRA.get(_k, "") + _v
